@@ -908,7 +908,7 @@ class Lower:
         a = [self.ex(x) for x in args]
         if name in ('memcpy', 'memset', 'rename', 'fstat', 'toupper', 'inet_ntop', 'deflate', 'deflateEnd',
                     'deflateInit2_', 'lzma_code', 'lzma_end', 'lzma_easy_encoder', 'write', 'close', 'htons', 'ntohs',
-                    '_mm_crc32_u8', '_mm_crc32_u16', '_mm_crc32_u32', '_mm_crc32_u64', 'strlen'):
+                    '_mm_crc32_u8', '_mm_crc32_u16', '_mm_crc32_u32', '_mm_crc32_u64', 'strlen', '__errno_location'):
             return 'lib_%s(%s)' % (name, ', '.join(a))
         if name in ('move', 'forward'):
             return a[0]
